@@ -42,8 +42,10 @@ def run(ctx):
     K.check_core_siblings(ctx, P, methods_sign=("sign", "partial_sign"), methods_verify=("verify", "partial_verify", "multi_sig_verify"))
     # 2. wrappers preserve the scheme
     fns = [f for f in (ctx.need_fn("E2-A", k) for k in WRAPPERS) if f is not None]
-    n_sites, n_arms = check_arm_purity(ctx, "E2-A", P, fns)
-    ctx.floor("E2-A", "scheme dispatch switches in signing/verifying wrappers", n_sites, 7)
+    from .common import with_mappers, check_dispatching
+
+    check_arm_purity(ctx, "E2-A", P, with_mappers(P, fns))
+    check_dispatching(ctx, "E2-A", P, fns)
     # 3. exit census of the signing path
     roots = [P.fns.get(k) for k in ("SecretKey<C>::sign",)]
     reach = reachable_fns(P, [r for r in roots if r])
